@@ -201,7 +201,34 @@ def c12(tier):
                   'prefix-determinism of the pattern.', 'c12', ['LR(1) construction is correct (C13, not claimed)'])
 
 
+def c14(tier):
+    from . import props_lex
+    rep = Report('C14', tier,
+                 'The scanner specification is compiled (in the checker) to a DFA with flex\'s disambiguation; totality, the keyword '
+                 'table in both directions against spec/tokens.tsv, action/enum agreement and absence of shadowed rules are decided on '
+                 'that automaton for ALL inputs. The committed lex.yy.c is tied to the specification by decoding its compressed tables '
+                 'and checking automaton equivalence (product construction, rule numbers included), by the AST of every action in the '
+                 'generated yylex, and by byte-identical regeneration with flex. CFG rules over scan() cover token identity, the final '
+                 'EOF, scanner creation and whole-buffer scanning.',
+                 assumptions=['flex\'s run-time skeleton implements the table semantics decoded here (match loop read from lex.yy.c)',
+                              'byte 0 follows flex\'s separate NUL transition'], trusted=TRUSTED + ['flex 2.6.4 (regeneration step only)'])
+    props_lex.c14(rep, tier)
+    return rep
+
+
+def c15(tier):
+    from . import props_lex
+    rep = Report('C15', tier,
+                 'Guard/dominance rules over scan(): each error kind is recorded under exactly its condition with the right request, '
+                 'a scanner is pushed only for an existing file that is not on the active stack (so depth <= number of files), every '
+                 'iteration reads a token or pops; parse()/compile() return exactly the not-found names.',
+                 assumptions=['each file is finite, so each scanner reaches its end'], trusted=TRUSTED)
+    props_lex.c15(rep, tier)
+    return rep
+
+
 CHECKS = {
+    'C14': c14, 'C15': c15,
     'C09': c09, 'C10': c10, 'C11': c11, 'C12': c12,
     'C02': c02,
     'C16': c16, 'C07': c07,
